@@ -479,6 +479,10 @@ func (s *Scope) evalCall(e ECall) Term {
 	}
 	if _, isSel := e.Fun.(EIdent); isSel {
 		switch fname {
+		case "screm":
+			r := s.Eval(e.Args[0])
+			w.DeclareFun("scRem", []Sort{r.Sort}, SInt)
+			return T("(scRem "+r.S+")", SInt)
 		case "rdpos", "rdlen", "rdat", "rdbuf", "rddata", "rdbad":
 			// bufio.Reader model: position, length of the stream, byte at an absolute index, guaranteed buffered bytes
 			r := s.Eval(e.Args[0])
